@@ -81,7 +81,9 @@ pub const FAMILIES: [&str; 58] = [
     "wide-flowmap-then-deep-nest",
     "wide-flowseq-then-deep-flow-nests",
 ];
-pub const APIS: [&str; 4] = ["iter-str", "iter-buffered", "load-yaml", "load-marked"];
+pub const APIS: [&str; 5] = ["iter-str", "iter-buffered", "load-yaml", "load-lazy", "load-marked"];
+/// The level-scaled scenarios (known findings of the eager loaders) leave the lazy route out: it is the same loader.
+pub const SPECIAL_APIS: [&str; 4] = ["iter-str", "iter-buffered", "load-yaml", "load-marked"];
 pub const RATIO_LIMIT: f64 = 6.0;
 
 /// "Billion laughs": `levels` anchored sequences, each aliasing the previous one `width` times.
@@ -579,6 +581,18 @@ fn api_run(text: &str, api: &str) -> Result<usize, String> {
             Ok(n)
         }
         "load-yaml" => Yaml::load_from_str(text).map(|d| d.len()).map_err(|e| e.to_string()),
+        "load-lazy" => {
+            // deferred resolution: load without resolving scalars, then resolve the whole tree
+            let mut p = Parser::new_from_str(text);
+            let mut loader: saphyr::YamlLoader<'_, Yaml<'_>> = saphyr::YamlLoader::default();
+            loader.early_parse(false);
+            p.load(&mut loader, true).map_err(|e| e.to_string())?;
+            let mut docs = loader.into_documents();
+            for d in &mut docs {
+                d.parse_representation_recursive();
+            }
+            Ok(docs.len())
+        }
         _ => MarkedYaml::load_from_str(text).map(|d| d.len()).map_err(|e| e.to_string()),
     }
 }
@@ -676,7 +690,7 @@ pub fn run(cfg: &Config) -> (i32, J) {
     }
     let mut jobs = Vec::new();
     // quick: the string iterator, the buffered iterator and one loader; thorough: also the marked loader
-    let apis: &[&str] = if cfg.tier == "thorough" { &APIS } else { &APIS[..3] };
+    let apis: &[&str] = if cfg.tier == "thorough" { &APIS } else { &APIS[..4] };
     for n in sizes(&cfg.tier) {
         for f in FAMILIES {
             for a in apis {
@@ -802,7 +816,7 @@ pub fn run(cfg: &Config) -> (i32, J) {
     let mut alias_rows = Vec::new();
     let mut known_hit = Vec::new();
     // measure all level-scaled scenarios in parallel first
-    let special_jobs: Vec<(usize, &str)> = specials.iter().enumerate().flat_map(|(k, _)| APIS.iter().map(move |a| (k, *a))).collect();
+    let special_jobs: Vec<(usize, &str)> = specials.iter().enumerate().flat_map(|(k, _)| SPECIAL_APIS.iter().map(move |a| (k, *a))).collect();
     let special_jobs = Arc::new(special_jobs);
     let special_next = Arc::new(AtomicUsize::new(0));
     let special_out: Arc<Mutex<Vec<(usize, String, Result<(u64, u64), String>)>>> = Arc::new(Mutex::new(Vec::new()));
@@ -827,7 +841,7 @@ pub fn run(cfg: &Config) -> (i32, J) {
     let special_out = special_out.lock().unwrap().clone();
     for (si, (family, l1, l2, what)) in specials.into_iter().enumerate() {
         let byte_growth = render(family, l2).len() as f64 / render(family, l1).len() as f64;
-        for api in APIS {
+        for api in SPECIAL_APIS {
             let r = special_out.iter().find(|x| x.0 == si && x.1 == api).map(|x| x.2.clone()).unwrap_or_else(|| Err("missing measurement".into()));
             let (i1, i2) = match r {
                 Ok(v) => v,
@@ -879,7 +893,7 @@ pub fn run(cfg: &Config) -> (i32, J) {
         "C01 instruction clock: {} scenarios ({} families x {} APIs x {:?} bytes, each at n and 4n) under valgrind in {:.1}s; worst growth x{:.2} ({}), limit x{RATIO_LIMIT}; allocation clock: worst growth x{:.2} requested, x{:.2} peak",
         ok_rows.len(),
         FAMILIES.len(),
-        if cfg.tier == "thorough" { 4 } else { 3 },
+        apis.len(),
         sizes(&cfg.tier),
         wall,
         max_ratio,
